@@ -304,6 +304,7 @@ uint32 ipaddr_addr(const char *cp) {
 uint8_t sdk_flash[SDK_FLASH_SECTORS * 4096];
 int sdk_flash_fail_at = 0, sdk_flash_fail_mode = 0, sdk_flash_crash_at = 0;
 int sdk_flash_ops = 0;
+int sdk_flash_fail_from = 0; /* every erase/write from the k-th on fails (mode 0) */
 int sdk_flash_log = 0;
 int sdk_flash_partial = 0; /* bytes of the crashing write that still reach the flash */
 
@@ -318,7 +319,7 @@ uint32 spi_flash_get_id(void) { return 0x1640ef; }
 SpiFlashOpResult spi_flash_erase_sector(uint16 sec) {
   sdk_flash_ops++;
   if (sdk_flash_crash_at && sdk_flash_ops == sdk_flash_crash_at) crash_now();
-  int fail = sdk_flash_fail_at && sdk_flash_ops == sdk_flash_fail_at;
+  int fail = (sdk_flash_fail_at && sdk_flash_ops == sdk_flash_fail_at) || (sdk_flash_fail_from && sdk_flash_ops >= sdk_flash_fail_from);
   int effect = !fail || sdk_flash_fail_mode == 1;
   if (sec >= SDK_FLASH_SECTORS) {
     sdk_out("FLASH erase %u OOR", sec);
@@ -338,7 +339,7 @@ SpiFlashOpResult spi_flash_write(uint32 des, uint32 *src, uint32 size) {
       sdk_flash[des + i] &= s[i];
     crash_now();
   }
-  int fail = sdk_flash_fail_at && sdk_flash_ops == sdk_flash_fail_at;
+  int fail = (sdk_flash_fail_at && sdk_flash_ops == sdk_flash_fail_at) || (sdk_flash_fail_from && sdk_flash_ops >= sdk_flash_fail_from);
   int effect = !fail || sdk_flash_fail_mode == 1;
   if ((uint64_t)des + size > sizeof(sdk_flash)) {
     sdk_out("FLASH write %u %u OOR", des, size);
